@@ -335,6 +335,8 @@ where
     /// Returns the [`MappedAddr`], generating one if needed.
     pub(super) fn get(&self, key: &K) -> V {
         let mut inner = self.inner.lock().expect("poisoned");
+        #[cfg(feature = "verif-hooks")]
+        crate::verif_hooks::c18::lin();
         match inner.addrs.get(key) {
             Some(addr) => *addr,
             None => {
@@ -355,6 +357,8 @@ where
     /// Performs the reverse lookup.
     pub(super) fn lookup(&self, addr: &V) -> Option<K> {
         let inner = self.inner.lock().expect("poisoned");
+        #[cfg(feature = "verif-hooks")]
+        crate::verif_hooks::c18::lin();
         inner.lookup.get(addr).cloned()
     }
 }
@@ -372,5 +376,58 @@ impl<K, V> Default for AddrMapInner<K, V> {
             addrs: Default::default(),
             lookup: Default::default(),
         }
+    }
+}
+
+/// Verification hooks (C18): crate-visible wrappers around the private items of this module.
+#[cfg(feature = "verif-hooks")]
+pub(crate) mod verif_c18 {
+    use super::*;
+
+    /// The real [`AddrMap`], reachable from `crate::verif_hooks`.
+    #[derive(Debug, Clone)]
+    pub(crate) struct Map<K, V>(pub(in crate::socket) AddrMap<K, V>);
+
+    impl<K, V> Default for Map<K, V> {
+        fn default() -> Self {
+            Self(AddrMap::default())
+        }
+    }
+
+    impl<K, V> Map<K, V>
+    where
+        K: Eq + Hash + Clone + fmt::Debug,
+        V: MappedAddr + Eq + Hash + Copy + fmt::Debug,
+    {
+        pub(crate) fn get(&self, key: &K) -> V {
+            self.0.get(key)
+        }
+
+        pub(crate) fn lookup(&self, addr: &V) -> Option<K> {
+            self.0.lookup(addr)
+        }
+
+        /// Entries of `addrs` and of `lookup` (hash-map order).
+        pub(crate) fn dump(&self) -> (Vec<(K, V)>, Vec<(V, K)>) {
+            let inner = self.0.inner.lock().expect("poisoned");
+            (
+                inner.addrs.iter().map(|(k, v)| (k.clone(), *v)).collect(),
+                inner.lookup.iter().map(|(v, k)| (*v, k.clone())).collect(),
+            )
+        }
+    }
+
+    /// `(ADDR_PREFIXL, ADDR_GLOBAL_ID, ENDPOINT_ID_SUBNET, RELAY_MAPPED_SUBNET,
+    /// CUSTOM_MAPPED_SUBNET, MAPPED_PORT, DEFAULT_FAKE_ADDR)` as compiled.
+    pub(crate) fn consts() -> (u8, [u8; 5], [u8; 2], [u8; 2], [u8; 2], u16, SocketAddrV6) {
+        (
+            ADDR_PREFIXL,
+            ADDR_GLOBAL_ID,
+            ENDPOINT_ID_SUBNET,
+            RELAY_MAPPED_SUBNET,
+            CUSTOM_MAPPED_SUBNET,
+            MAPPED_PORT,
+            DEFAULT_FAKE_ADDR,
+        )
     }
 }
